@@ -316,6 +316,99 @@ class Scn:
         if r.rc == 0 or f is None or any(b[0] == 'BLK' for b in f['blocks']):
             return self.bad('decoy_accepted', 'a decoy inheriting the provisional hashes of an unverified copy is recorded %s, exit %d' % (f and [b[0] for b in f['blocks']], r.rc))
 
+    def samesec(self, rec_zero, new, how):
+        """a same-name same-size rewrite whose new time-stamp lies in the SAME second as the recorded one: recorded nanoseconds
+        {0, x} against new nanoseconds {0, equal, other}; in place (same inode: found by inode when usable, else by path)
+        or delete + create (other inode: found by path).  Any difference in the nanoseconds is a change: the file must be
+        read again and end up recorded with the hashes of its new bytes"""
+        w, a, rng = self.w, self.w.arr, self.rng
+        sec = w.stamp() // 10**9
+        rec_ns = 0 if rec_zero else rng.randint(1, 999999999)
+        size = rng.choice([1024, 2048, 2500, 3072])
+        w.write('d1', 'f', rng.randbytes(size), sec * 10**9 + rec_ns)
+        w.write('d2', 'pad', rng.randbytes(1500))
+        w.log.append(['recorded-nsec', rec_ns])
+        r, st = self.sync()
+        if r is None or not self.judge(st, 'the initial sync') or r.rc != 0:
+            return
+        if self.cfg['uuid']:
+            w.write('d2', 'filler', rng.randbytes(10))
+            r, st = self.sync()
+            if r is None:
+                return
+        new_ns = {'zero': 0, 'equal': rec_ns, 'other': rng.choice([n for n in (1, 500000000, 999999999) if n != rec_ns])}[new]
+        q = w.p('d1', 'f')
+        data = bytes((x ^ rng.randint(1, 255)) for x in open(q, 'rb').read())
+        changed = new_ns != rec_ns
+        m = sec * 10**9 + new_ns
+        if changed:
+            if how == 'recreate':
+                os.unlink(q)
+            w.write('d1', 'f', data, m)
+        else:
+            # invisible by the property's own words when the inode is kept: only the verdict of diff is judged
+            with open(q, 'r+b') as fh:
+                fh.write(data)
+            os.utime(q, ns=(m, m))
+            w.log.append(['rewrite-in-place-same-stamp', 'd1', 'f'])
+            r = w.run('diff'); self.ncmd += 1
+            self.count('samesec_equal_trusted')
+            if r.rc != 0:
+                return self.bad('samesec_equal', 'diff exits %d although size, time-stamp (s and ns) and inode of d1:f are unchanged' % r.rc)
+            return
+        w.log.append(['samesec', how, 'recorded', rec_ns, 'new', new_ns])
+        self.count('samesec_%s_%s' % ('rec0' if rec_zero else 'recx', new))
+        r = w.run('diff'); self.ncmd += 1
+        cnt = counters(r)
+        if r.rc != 2 or cnt['updated'] != 1:
+            return self.bad('samesec_unseen', 'd1:f was rewritten (same size) with a time-stamp in the same second, nanoseconds %d -> %d (%s): diff exits %d with %s; '
+                                              'the file would keep its hashes and parity without being read' % (rec_ns, new_ns, how, r.rc, cnt))
+        r, st = self.sync()
+        if r is None or not self.judge(st, 'sync'):
+            return
+        if r.rc != 0 or not self.all_blk(st):
+            return self.bad('sync_fails', 'sync exits %d' % r.rc)
+        self.final_check()
+
+    def uuidflip(self, to_fake):
+        """the recorded UUID and the reported one differ (empty -> non-empty when --test-fake-uuid appears, non-empty -> unsupported
+        when it disappears): recorded inodes mean nothing.  Two files of equal size and time-stamp exchange their inode numbers
+        (names and bytes stay): nothing changed for the tool -- in particular nothing may be `moved` and inherit the other file's
+        hashes and parity"""
+        w, a, rng = self.w, self.w.arr, self.rng
+        w.fake_uuid = not to_fake
+        size = rng.choice([1024, 2048, 2500])
+        m = w.stamp(zero_ns=rng.random() < 0.3)
+        A, B = rng.randbytes(size), rng.randbytes(size)
+        w.write('d1', 'a', A, m); w.write('d1', 'b', B, m)
+        w.write('d2', 'pad', rng.randbytes(1500))
+        for _ in range(2):          # the second sync makes a fake UUID `recorded`
+            w.write('d2', 'filler', rng.randbytes(10))
+            r, st = self.sync()
+            if r is None or not self.judge(st, 'the initial syncs') or r.rc != 0:
+                return
+        w.fake_uuid = to_fake
+        pa, pb, pt = w.p('d1', 'a'), w.p('d1', 'b'), w.p('d1', 't.swap')
+        os.rename(pa, pt); os.rename(pb, pa); os.rename(pt, pb)
+        for q, data in ((pa, A), (pb, B)):
+            with open(q, 'r+b') as fh:
+                fh.write(data)
+            os.utime(q, ns=(m, m))
+        w.log.append(['inodes-of-a-and-b-exchanged', 'uuid', 'empty->fake' if to_fake else 'fake->none'])
+        self.count('uuidflip_' + ('to_fake' if to_fake else 'to_none'))
+        r = w.run('diff'); self.ncmd += 1
+        cnt = counters(r)
+        if r.rc != 0 or cnt['moved'] or cnt['restored']:
+            return self.bad('uuid_inodes_trusted', 'the recorded UUID of d1 is %s and the disk now reports %s, yet recorded inodes are used: diff exits %d with %s after '
+                                                   'two files of equal size and time-stamp exchanged their inode numbers'
+                            % ((('empty', 'a UUID') if to_fake else ('a UUID', 'none')) + (r.rc, cnt)))
+        r, st = self.sync()
+        if r is None or not self.judge(st, 'sync'):
+            return
+        if r.rc != 0:
+            return self.bad('sync_fails', 'sync exits %d' % r.rc)
+        self.final_check()
+
     def import_decoy(self, how, with_true, decoy_first):
         """fix with import directories / duplicates: two files of one stripe range are lost with one parity, so parity alone
         cannot help; a true copy (any name) may be used, a decoy (same name, size, time-stamp) never"""
@@ -372,14 +465,15 @@ class Scn:
 
 def configs(rng, n):
     out = []
-    kinds = ['copy', 'copy', 'copy', 'rename', 'partial', 'import', 'import', 'rep']
+    kinds = ['copy', 'copy', 'copy', 'rename', 'partial', 'import', 'import', 'rep', 'samesec', 'samesec', 'uuidflip']
     for i in range(n):
         k = kinds[i % len(kinds)]
         out.append({'kind': k, 'nd': 3 if k == 'rep' or rng.random() < 0.3 else 2, 'np': 1 if k == 'import' else rng.choice([1, 2]), 'order': 'alpha',
                     'uuid': rng.random() < 0.5, 'where': 'tmpfs', 'seed': rng.getrandbits(32), 'i': i,
                     'variant': ['plain', 'prehash', 'nocopy'][(i // len(kinds) + i) % 3] if k == 'copy' else rng.choice(['stamp', 'content', 'dup']),
                     'nsec_zero': rng.random() < 0.4, 'same_path': rng.random() < 0.5, 'decoy': rng.random() < 0.8,
-                    'with_true': rng.random() < 0.5, 'decoy_first': rng.random() < 0.5, 'other_name': k == 'copy' and rng.random() < 0.2})
+                    'with_true': rng.random() < 0.5, 'decoy_first': rng.random() < 0.5, 'other_name': k == 'copy' and rng.random() < 0.2,
+                    'rec_zero': rng.random() < 0.5, 'new': rng.choice(['zero', 'zero', 'equal', 'other']), 'how': rng.choice(['inplace', 'recreate']), 'to_fake': rng.random() < 0.6})
     return out
 
 
@@ -397,6 +491,10 @@ def run_one(chk, binary, shim, model, cfg):
             S.rep_source()
         elif k == 'import':
             S.import_decoy(cfg['variant'], cfg['with_true'], cfg['decoy_first'])
+        elif k == 'samesec':
+            S.samesec(cfg['rec_zero'], cfg['new'], cfg['how'])
+        elif k == 'uuidflip':
+            S.uuidflip(cfg['to_fake'])
         if S.model and S.ok:
             c11_model.flush_drift(S)
     finally:
